@@ -355,17 +355,22 @@ class Scheduler(object):
 class SchedLock(object):
   """Drop-in for threading.Lock under the scheduler."""
 
-  def __init__(self, sched):
+  def __init__(self, sched, reentrant=False):
     self.sched = sched
     self.owner = None
     self._locked = False
     self.on_acquire = None
     self.on_release = None
     self.contended = 0
+    self.reentrant = reentrant      # mirrors the kind of lock it stands in for (threading.RLock vs Lock)
+    self.depth = 0
 
   def acquire(self, blocking=True, timeout=-1):
     s = self.sched
     me = s.me()
+    if self.reentrant and self._locked and self.owner is me and me is not None:
+      self.depth += 1
+      return True
     while self._locked:
       if not blocking:
         return False
@@ -382,6 +387,9 @@ class SchedLock(object):
   def release(self):
     if not self._locked:
       raise RuntimeError('release unlocked lock')
+    if self.depth:
+      self.depth -= 1
+      return
     me = self.owner
     self._locked = False
     self.owner = None
